@@ -136,12 +136,15 @@ class RawPeer(asyncio.Protocol):
         self.received = bytearray()
         self.chunks = []
         self.timed = []  # (virtual arrival time, bytes)
+        self.on_connect = None
         self.eof = False
         self.lost = None  # None | 'closed' | repr(exc)
         self.paused = False
 
     def connection_made(self, transport):
         self.transport = transport
+        if self.on_connect is not None:
+            self.on_connect(self)
 
     def data_received(self, data):
         self.received += data
